@@ -637,6 +637,7 @@ fn run_scenario_here(sc: &Scenario, strategy: Option<Strategy>, order: Option<&[
                         let reachable2 = ctx.reachable.clone();
                         let served2 = served_unreachable.clone();
                         let noticed2 = noticed_at.clone();
+                        let log3 = log.clone();
                         let polling2 = poll_in_progress.clone();
                         let judge_unavailable = sc.property == "C12";
                         let aborts2 = aborts.clone();
@@ -709,6 +710,12 @@ fn run_scenario_here(sc: &Scenario, strategy: Option<Strategy>, order: Option<&[
                                                         op.kind(),
                                                         r.chars().take(60).collect::<String>()
                                                     ));
+                                                }
+                                            }
+                                            if let Op::Get { u, d, .. } = op {
+                                                if r == "ok status=2" {
+                                                    // (pushed right after the reply, with no scheduling point in between)
+                                                    log3.push(Event::Note(format!("get_responded:{u}:{d}")));
                                                 }
                                             }
                                             out.lock().unwrap_or_else(|e| e.into_inner())[ti][i] = r;
@@ -969,6 +976,47 @@ fn run_scenario_here(sc: &Scenario, strategy: Option<Strategy>, order: Option<&[
                                     late_submission = Some(format!(
                                         "{}|penalty {t} was submitted after the purge that removed its only owner(s) {us:?} had been committed",
                                         if stored { "stored_before_purge" } else { "never_stored" }
+                                    ));
+                                }
+                            }
+                        }
+                        _ => {}
+                    }
+                }
+            }
+            // C02 (absolute): dispute_responded is never reported for a penalty the node has not been given and did not
+            // already have. Over the whole event log: a read answered 'dispute_responded' must come after a
+            // sendrawtransaction of that user's penalty that reached the node (any answer), or after the node said it has it.
+            if late_submission.is_none() {
+                let mut penalties: BTreeMap<(u32, u32), BTreeSet<Txid>> = BTreeMap::new();
+                for op in sc.prefix.iter().chain(sc.threads.iter().flatten()) {
+                    if let Op::Add { u, d, blob: Blob::Valid { v, len }, sig, .. } = op {
+                        let who = match sig {
+                            Sig::OtherUser(u2) => *u2,
+                            _ => *u,
+                        };
+                        penalties.entry((who, *d)).or_default().insert(uni.penalty(*d, *v, *len).compute_txid());
+                    }
+                }
+                let mut given: BTreeSet<Txid> = BTreeSet::new();
+                for e in log.since(0) {
+                    match e {
+                        Event::Rpc { method: "sendrawtransaction", txid: Some(t), verdict } if verdict != Verdict::Transport => {
+                            given.insert(t);
+                        }
+                        Event::Rpc { method: "getrawtransaction", txid: Some(t), verdict: Verdict::Ok } => {
+                            given.insert(t);
+                        }
+                        Event::Note(n) if n.starts_with("get_responded:") => {
+                            let mut it = n["get_responded:".len()..].split(':');
+                            let u: u32 = it.next().and_then(|x| x.parse().ok()).unwrap_or(u32::MAX);
+                            let d: u32 = it.next().and_then(|x| x.parse().ok()).unwrap_or(u32::MAX);
+                            if let Some(ps) = penalties.get(&(u, d)) {
+                                let st = node.lock();
+                                let known = ps.iter().any(|p| given.contains(p) || st.confirmed.contains_key(p));
+                                if !known && late_submission.is_none() {
+                                    late_submission = Some(format!(
+                                        "RESP|get_appointment of (user {u}, dispute {d}) was answered dispute_responded before the node had been given the penalty (no sendrawtransaction of it had reached the node, and the node did not have it)"
                                     ));
                                 }
                             }
